@@ -28,6 +28,9 @@ Inductive c07case :=
 | CPolicyValid (ok : bool)
 (* package crdt: IsTrustedPeer(p) for p = 0..len-1 after the history *)
 | CTrust (star : bool) (configured : list N) (h : list top) (obs : list bool)
+(* package crdt: the same, the configuration given as the trusted_peers value written in the file (None = key absent
+   or null), env = the Manager's environment pass (ApplyEnvVars, nothing set) was applied after LoadJSON *)
+| CTrustJ (tp : option (list tentry)) (env : bool) (h : list top) (obs : list bool)
 (* package crdt: an update signed by `signer` and handed to peer 0 (trust state star/configured/h) by `forwarder`
    (= signer when they are connected; a relay otherwise, relay_ok = the relay itself accepted and forwarded it):
    did it reach (true) the state of peer 0 *)
@@ -49,6 +52,17 @@ Definition check_case_spec (c : N * c07case) : list (N * N * N) :=
                 || (trust_of m caller && negb (mem_str ep local_only_spec)))
   | CTrust star l h obs =>
       fail1 id (list_eqb Bool.eqb (map (trust_crdt (mk_crdt_cfg star 0%N l) h) (seqN 0 (length obs))) obs)
+  | CTrustJ tp env h obs =>
+      let cfg := cfg_of_json 0%N tp in
+      let cfg := if env then env_pass cfg else cfg in
+      (fail1 id (list_eqb Bool.eqb (map (trust_crdt cfg h) (seqN 0 (length obs))) obs) ++
+       (* the property itself on the implementation's answer, before any Trust/Distrust call: a peer other than the
+          observer is trusted only if it, or "*", is written in the list *)
+       fail2 id (negb (match h with [] => true | _ => false end) ||
+                 forallb (fun pb => negb (snd pb) || N.eqb (fst pb) 0 ||
+                            match tp with None => false
+                            | Some l => existsb (fun e => match e with TStar => true | TPeer q => N.eqb q (fst pb) end) l end)
+                         (combine (seqN 0 (length obs)) obs)))%list
   | CDeliver star l h signer forwarder relay_ok arrived =>
       (* the validator looks at the signer, never at who handed the message over *)
       (fail1 id (Bool.eqb (relay_ok && validator (mk_crdt_cfg star 0%N l) h signer) arrived) ++
